@@ -619,6 +619,21 @@ class PCBO(PUBO):
         return True
 
     # override
+    def __imul__(self, other):
+        """__imul__.
+
+        Multiplying in place by a dictionary rebuilds ``self`` from an empty
+        model. Keep the ancilla counter and the recorded constraints, as
+        multiplying in place by a number does.
+
+        """
+        ancilla, constraints = self._ancilla, self._constraints
+        # use self.__class__ here because PCSO uses this code as well.
+        super(self.__class__, self).__imul__(other)
+        self._ancilla, self._constraints = ancilla, constraints
+        return self
+
+    # override
     def __round__(self, ndigits=None):
         """round.
 
